@@ -57,6 +57,9 @@ func Run(db *logdb.DB, rq Req) (out Outcome) {
 	restore := readersvc.Quiet()
 	defer restore()
 	be := logdb.NewBackend(db.CH())
+	// `topk(k, X) > v` renders HAVING on a select without aggregation: read it the way the
+	// new ClickHouse analyzer (default since 24.3) does, as a filter (logdb.Backend)
+	be.HavingAsFilter = true
 	out.Backend = be
 	fdb := fakesql.New(be.Handler())
 	defer fdb.Close()
@@ -134,6 +137,16 @@ func Run(db *logdb.DB, rq Req) (out Outcome) {
 		}
 	}
 	return
+}
+
+// Rewritten says whether a statement was executed under the HAVING-as-filter reading.
+func (o *Outcome) Rewritten() bool {
+	for _, e := range o.Backend.Log() {
+		if e.Rewritten {
+			return true
+		}
+	}
+	return false
 }
 
 // SQL returns the main statement of the outcome ("" if none was sent).
